@@ -7,6 +7,7 @@ import json
 import multiprocessing as mp
 import os
 import random
+import json
 import shutil
 import sys
 import tempfile
